@@ -21,16 +21,17 @@ def run(chk, replay=None):
         chk.add_mc(r)
     # (I) input space: every fundamental |D| < 3000 and (bit size, residue class) shapes
     shapes = os.path.join(w, "shapes.ndjson")
-    nshapes, r = core.gen_shapes("classgroup/ClassGroupShapes.tla", "ClassGroupShapes.cfg", shapes)
+    nshapes, r = core.gen_shapes("classgroup/ClassGroupShapes.tla",
+                                 "ClassGroupShapesThorough.cfg" if thorough else "ClassGroupShapes.cfg", shapes)
     chk.add_mc(r)
     # (V) the real code
     trace = os.path.join(w, "trace.ndjson")
     scratch = os.path.join(w, "scratch")
     args = ["c18", "--seed", chk.seed, "--shapes", shapes, "--scratch", scratch]
     if thorough:
-        args += ["--reps", 6, "--small-stride", 1, "--maxlines", 300, "--xcheck", 40]
+        args += ["--reps", 4, "--small-stride", 1, "--maxlines", 250, "--xcheck", 40, "--count-bound", 2 ** 30 - 1, "--npow", 4]
     else:
-        args += ["--reps", 2, "--small-stride", 3, "--maxlines", 40, "--xcheck", 60]
+        args += ["--reps", 2, "--small-stride", 3, "--maxlines", 40, "--xcheck", 60, "--npow", 2]
     if replay:
         args += ["--only", replay["event"]["case"]]
     core.run_driver(args, trace, timeout=3000)
@@ -39,7 +40,8 @@ def run(chk, replay=None):
 
     def weight(e):
         if e["op"] == "result":
-            return 30 + (e.get("n", 0) // 20000) + 40 * len(e.get("facs", [])) * (1 + e["bits"] // 40)
+            return (30 + (e.get("n", 0) // 20000) + 40 * len(e.get("facs", [])) * (1 + e["bits"] // 40)
+                    + len(e.get("pw", [])) * e["bits"] * e["bits"] // 5)
         if e["op"] == "line":
             return (1 + e["bits"] // 16) * (40 if "xc" in e else 1)
         return 1
@@ -83,6 +85,7 @@ def run(chk, replay=None):
     chk.cov["results_by_size_bits"] = sizes
     chk.cov["results_by_threads"] = threads
     chk.cov["h_checked_against_form_count"] = sum(1 for e in evs if e["op"] == "result" and "n" in e)
+    chk.cov["lagrange_checked_prime_forms"] = sum(len(e.get("pw", [])) for e in evs if e["op"] == "result")
     chk.cov["two_rank_checked"] = sum(1 for e in evs if e["op"] == "result" and "facs" in e)
     chk.cov["lines_without_logged_sieve_value"] = nou
     chk.cov["lines_without_coordinates"] = noco
@@ -100,7 +103,8 @@ def run(chk, replay=None):
         "D negative fundamental (verified by TLC from n or from the certified factorisation; the two largest test discriminants "
         "of the repository are taken as given), |D| <= 128 bits",
         "the true class number is known independently (reduced-form count by TLC) only for |D| <= 10^7; beyond, the class "
-        "number is checked only through invariants, 2-rank (genus theory), coordinates killing the emitted relations",
+        "number is checked only through f^h = 1 for a few prime forms f (Lagrange), invariants, 2-rank (genus theory), and "
+        "coordinates killing the emitted relations",
         "the sieve value u logged by the cfg(yamaquasi_verif) hook in sieve_block_poly is only a witness: a relation it does not "
         "explain is decided by form composition/reduction in TLA+",
         "prime forms of the factor base are assumed to generate the class group when coordinates are interpreted",
